@@ -35,7 +35,7 @@ CHECKS = {
    engine="proptest+simnet (+ real-time part)",
    technique="property-based testing: generated identity pairs x all four arrival-order combinations (enumerated) at decision level; generated registration/close-notice schedules on both sides with real connections; generated simultaneous dials on the simulated network with asymmetric delays, offsets, loss and background dialing; a small real-time part for wall-clock-dependent logic",
    text="Arrival orders are enumerated where the space is four; schedules, delays and offsets are generated elsewhere. The oracle is the converged end state after a dynamically detected quiet window plus three further idle timeouts without events. Exploration.",
-   note="Trusted: fabric + paused clock. Cases where a dial returns Err are discarded (counted). The real-time part costs wall-clock seconds and is statistical.",
+   note="Trusted: fabric + paused clock. Cases where a dial returns Err are discarded (counted). The real-time part costs wall-clock seconds and is statistical; the close-notice-race part uses two OS threads with a swept start skew (interleavings sampled). A dial that returns Err is accepted, but without injected loss the pair must still converge.",
    design="§4 C05"),
  "C06": dict(
    engine="simnet+proptest+libfuzzer",
@@ -47,14 +47,14 @@ CHECKS = {
    engine="proptest+libfuzzer",
    technique="property-based testing: round-trip + differential against a hand-written reference codec, exhaustive enumeration of small sub-spaces; coverage-guided fuzzing of the decoders in the thorough tier",
    text="Generated messages and byte strings against an independent reference encoder/decoder; versions, status codes and preamble bytes enumerated completely. Exploration: it samples the message space, it does not prove the codec.",
-   note="Trusted: the hand-written reference codec (refmodel::wire) as layout authority, in-memory AsyncRead/AsyncWrite standing in for QUIC streams.",
+   note="Trusted: the hand-written reference codec (refmodel::wire) as layout authority, in-memory AsyncRead/AsyncWrite standing in for QUIC streams (also delivering in generated pieces, and sinks that fail or stall). A case that kills the process (allocation abort) is reported through the crash handler.",
    design="§4 C07"),
  "C08": dict(
    engine="simnet+proptest + child-process racer",
    level="fault_enumeration",
    technique="property-based testing: generated mixes of in-flight work at the shutdown instant on the simulated network (virtual-time bounds, resource and event oracles) with the runtime dropped at enumerated packet-event times of a reference run; plus a schedule-fuzzing racer that pre-empts one worker thread at generated poll points (tracing subscriber) while a multi-thread runtime is torn down in child processes",
    text="Crash points are enumerated at packet-event granularity per generated scenario (virtual time); multi-thread teardown races are sampled by the racer, which owns the pre-emption point but not the whole schedule. Four teardown defects found by it were repaired by fix: commits and would be reported again.",
-   note="Trusted: fabric + paused clock for part A. Racer: real threads and real loopback UDP, statistical replay (10 runs), a slow child is inconclusive; the only hook it reads is the accept-None counter (H3).",
+   note="Trusted: fabric + paused clock for part A. Racer: real threads and real loopback UDP, statistical replay (10 runs), a slow child is inconclusive; the only hook it reads is the accept-None counter (H3). Known finding F8 (address stays bound while the application holds a Peer handle) is attributed only when dropping the handles frees the address; the case then continues.",
    design="§4 C08, §3.5"),
  "C09": dict(
    engine="simnet+proptest",
@@ -115,7 +115,7 @@ CHECKS = {
    engine="proptest",
    technique="property-based testing: model-based operation histories (arrive/poll/release/cancel) with hand-polled futures, per-peer running-set model as oracle",
    text="The harness owns every poll, so request interleavings are generated, not sampled; the model is the per-peer running set. Exploration of histories up to 60 operations.",
-   note="Trusted: tokio Semaphore, dashmap. Inner service is an instrumented stub with a per-peer gauge.",
+   note="Trusted: tokio Semaphore, dashmap. Inner service is an instrumented stub with a per-peer gauge that counts a request from the moment call() is entered; a tokio context is present; parts many-peers (up to 3000 earlier peers) and cancel-storm (up to 1500 cancelled waiters) cover long lifetimes.",
    design="§4 C18"),
  "C19": dict(
    engine="proptest (real clock)",
